@@ -364,6 +364,17 @@ def main(repo, out, work):
         if not steps:
             raise TranslateError('%s: the step of interest was not found' % filt)
         skels.append((nm, steps))
+    # (5) LinTerms::sort_terms (src/std_constr.cc): std::map code, not translated; its step skeleton as a tripwire
+    tu6 = os.path.join(work, 'objfilter_stdconstr.cc')
+    open(tu6, 'w').write('#define NDEBUG 1\n#include "%s/src/std_constr.cc"\n' % repo)
+    docs = clang_dump(tu6, 'mp::LinTerms::sort_terms', [os.path.join(repo, 'include'), os.path.join(repo, 'src')])
+    for dd in docs:
+        prune_comments(dd)
+    bodies = [b for dd in docs for b in find_nodes(dd, lambda n: n.get('kind') == 'CXXMethodDecl' and n.get('name') == 'sort_terms'
+                                                    and any(c.get('kind') == 'CompoundStmt' for c in n.get('inner', [])))]
+    if len(bodies) != 1:
+        raise TranslateError('%d bodies of LinTerms::sort_terms' % len(bodies))
+    skels.append(('skel_LinTerms_sort_terms', skeleton(body_of(bodies[0]))))
     o = ['/- GENERATED by translators/gen_objfilter.py from include/mp/nl-reader.h, solver-base.h, solver-io.h.',
          '   Do not edit: regenerated on every check run.  Parameters: p_* declared parameters, f_* fields of `this`',
          '   (or of the member object the call goes through), v_* results of virtual calls on `this`,',
